@@ -56,6 +56,15 @@ def models():
         "@group G2 using G1",
         "    ug3 = 3 * ub",
         "@end",
+        "@group G0",
+        "    ug0 = 31 * ub",
+        "@end",
+        "@group G4 using G0, G1",
+        "    ug4 = 23 * ub",
+        "@end",
+        "@group G5 using G2, G0",
+        "    ug5 = 29 * ub",
+        "@end",
         "@alias uc = calias = c_alias2",
         "@alias ug3 = g3alias",
         "@system S1 using G2",
@@ -152,7 +161,7 @@ def observe(ureg, with_listing=True):
     obs["conv:ub->uo"] = call(lambda: str(val(ureg.Quantity(3, "ub").to("uo").magnitude)))
     obs["conv:ue->uf"] = call(lambda: str(val(ureg.convert(1, "ue", "ua**2/ub**2"))) if True else None)
     obs["conv:ul"] = call(lambda: round(float(ureg.Quantity(20.0, "ul").to("ua").magnitude), 9))
-    for g in ("G1", "G2", "G0", "root"):
+    for g in ("G1", "G2", "G0", "root", "G4", "G5"):
         obs["group:" + g] = call(lambda: sorted(ureg.get_group(g, False).members))
     obs["system:S1"] = call(lambda: sorted(ureg.get_system("S1", False).members))
     obs["default_system"] = call(lambda: ureg.default_system)
@@ -188,7 +197,7 @@ def expected_from_R1(lines):
             exp["unit:" + n] = {"name": name, "symbol": sym, "dim": sorted((k, str(v)) for k, v in M.dim(n).items()), "factor": str(r.coef), "root": sorted((k, str(v)) for k, v in r.units.items())}
         except defs.DefError:
             exp["unit:" + n] = None
-    for g in ("G1", "G2", "G0", "root"):
+    for g in ("G1", "G2", "G0", "root", "G4", "G5"):
         exp["group:" + g] = sorted(M.group_members(g))
     exp["system:S1"] = sorted(M.system_members("S1"))
     exp["default_system"] = M.defaults.get("system")
@@ -212,7 +221,17 @@ def load(path_kind, lines, nt, scratch):
         # "import-early": a one-line main file that stays byte-identical across the whole family while the
         # imported file varies (and lives in another directory each time)
         k = max(3, len(lines) // 3) if path_kind == "import" else 1
-        while lines[k].startswith(" ") or lines[k].startswith("@end") or lines[k].startswith("\t"):
+        def inside_block(idx):
+            depth = 0
+            for ln in lines[:idx]:
+                t = ln.strip()
+                if t.startswith("@end"):
+                    depth = 0
+                elif t.startswith("@") and not t.startswith(("@alias", "@import")):
+                    depth = 1
+            return depth == 1
+
+        while inside_block(k):  # never cut a block in two (layouts interleave unindented comment lines)
             k += 1
         p1, p2 = os.path.join(scratch, "main.txt"), os.path.join(scratch, "part2.txt")
         with open(p1, "w", encoding="utf-8") as fh:
@@ -288,7 +307,7 @@ def run_generated(acc, mi, nt, tier):
             obs = observe(o[1], with_listing=(path != "define"))
             skip = ("compat:ua", "compat:ua,G2") if path == "define" else ()
             if path == "define":
-                skip = skip + ("group:G0", "default_system") + tuple(f"{b}:{n}" for b in ("base", "base-none") for n in ("ua", "uf", "ug1", "ue"))  # _after_init work: default group / system are constructor-time
+                skip = skip + ("group:G0", "group:G4", "group:G5", "default_system") + tuple(f"{b}:{n}" for b in ("base", "base-none") for n in ("ua", "uf", "ug1", "ue"))  # _after_init work: default group / system are constructor-time
             d = diff_keys(canon, obs, skip)
             if d:
                 k = d[0]
@@ -329,7 +348,7 @@ def check_absolute(acc, obs, exp, nt, case, variant):
                 if nt == "Decimal" and got["factor_type"] not in ("int", "Decimal"):
                     acc.violation(["generated", "numeric-literal-not-in-registry-type", variant, nt], dict(case, unit=k[5:]), "int or Decimal", got["factor_type"])
         elif k.startswith("group:") or k.startswith("system:"):
-            if variant == "define" and k in ("group:G0",):
+            if variant == "define" and k in ("group:G0", "group:G4", "group:G5"):  # they use the default group, which is filled at construction time
                 continue
             acc.ev()
             if o != ["ok", e]:
@@ -545,7 +564,7 @@ MANIFEST = {
     "technique": "bounded exhaustive enumeration of definition texts (all permutations of the free lines x layouts x loading paths x numeric types) with an independent reader as absolute oracle and the canonical loading as differential oracle; catalogue of ill-formed texts",
     "text": "The bundled files are compared entry by entry with R1 (every spelling -> unit, symbol, aliases, converter kind and offset, every prefix spelling and value, transitive group and system membership, "
     "context names/aliases/defaults/rule counts, defaults). Three generated 34-line definition files (prefixes, base/derived units in a DAG with rational factors, placeholder symbol, aliases on the unit line and on @alias lines — probed bare, prefixed by name and by symbol, and pluralised —, an offset and a log "
-    "unit, two groups with 'using', a system with both rule forms, a context with defaults/rules/redefinition, defaults) are loaded in EVERY permutation of 5 (6 thorough) free unit/prefix lines, cycling through 4 "
+    "unit, four groups with 'using' (incl. two that use two groups at once, the default group first and last), a system with both rule forms, a context with defaults/rules/redefinition, defaults) are loaded in EVERY permutation of 5 (6 thorough) free unit/prefix lines, cycling through 4 "
     "layouts x 7 loading paths (lines, file, @import split, cold and warm disk cache, one define() per statement) in float, Decimal and Fraction: a 67-key read-only observation vector must equal R1's reading "
     "(names, symbols, dimensionality, exact factors, roots, memberships) and the canonical loading's vector (conversions, system base units, context conversions, listings). 36 ill-formed shapes x 2 positions x 2 "
     "types must raise at load or first use.",
